@@ -28,7 +28,12 @@ func (k *KeyShape) String() string {
 
 // constPrefixOf: v is a load of a package-level variable or a struct field that is only ever initialised with
 // []byte(<constant string>); returns that constant.
-func (p *Prog) constPrefixOf(v ssa.Value) (string, bool) {
+func (p *Prog) constPrefixOf(v ssa.Value) (string, bool) { return p.constPrefix(v, true) }
+
+// constPrefixContent is constPrefixOf without the capacity requirement (content only).
+func (p *Prog) constPrefixContent(v ssa.Value) (string, bool) { return p.constPrefix(v, false) }
+
+func (p *Prog) constPrefix(v ssa.Value, strict bool) (string, bool) {
 	u, ok := v.(*ssa.UnOp)
 	if !ok || u.Op != token.MUL {
 		return "", false
@@ -66,21 +71,45 @@ func (p *Prog) constPrefixOf(v ssa.Value) (string, bool) {
 	}
 	res := ""
 	for i, val := range vals {
-		cv, ok := val.(*ssa.Convert)
-		if !ok {
-			return "", false
-		}
-		k, ok := cv.X.(*ssa.Const)
-		if !ok {
-			return "", false
-		}
-		s, ok := constStringVal(k.Value)
+		s, ok := constBytesContent(val, strict)
 		if !ok || (i > 0 && s != res) {
 			return "", false
 		}
 		res = s
 	}
 	return res, true
+}
+
+// constBytesContent: the value is []byte(<constant>) — or, when strict is false, a chain append([]byte(<c1>), <c2>...) whose content is constant
+// (its capacity may exceed its length: good enough to classify a key, not good enough as a shared append base, C13-R2).
+func constBytesContent(val ssa.Value, strict bool) (string, bool) {
+	switch x := val.(type) {
+	case *ssa.Convert:
+		if k, ok := x.X.(*ssa.Const); ok {
+			return constStringVal(k.Value)
+		}
+	case *ssa.Call:
+		if strict {
+			return "", false
+		}
+		if bi, ok := x.Call.Value.(*ssa.Builtin); ok && bi.Name() == "append" && len(x.Call.Args) == 2 {
+			base, ok := constBytesContent(x.Call.Args[0], false)
+			if !ok {
+				return "", false
+			}
+			switch a := x.Call.Args[1].(type) {
+			case *ssa.Const:
+				if s, ok := constStringVal(a.Value); ok {
+					return base + s, true
+				}
+			case *ssa.Convert:
+				if s, ok := constBytesContent(a, false); ok {
+					return base + s, true
+				}
+			}
+		}
+	}
+	return "", false
 }
 
 // keyShape follows append chains, parameters and small key-building helpers.
@@ -98,7 +127,7 @@ func keyShape(e *Env, v ssa.Value, depth int) *KeyShape {
 		if b, ok := x.Call.Value.(*ssa.Builtin); ok && b.Name() == "append" && len(x.Call.Args) == 2 {
 			base := x.Call.Args[0]
 			var ks *KeyShape
-			if s, ok := e.P.constPrefixOf(base); ok {
+			if s, ok := e.P.constPrefixContent(base); ok {
 				ks = &KeyShape{Prefix: s}
 			} else {
 				ks = keyShape(e, base, depth+1)
